@@ -25,7 +25,11 @@ import c01_gen  # noqa: E402
 THEOREMS = ["Wf.indexOf?_bound", "Wf.resolve_bounded", "Wf.resolveList_bounded", "Wf.resolvesAll_ok",
             "Wf.check_filter_ok", "Wf.check_proj_ok", "Wf.check_order_ok", "Wf.check_hashagg_ok", "Wf.check_join_ok",
             "Wf.check_hashjoin_residual", "Wf.check_apply", "Wf.schema_filter", "Wf.schema_order", "Wf.schema_limit",
-            "Wf.schema_topn", "Wf.schema_proj", "Wf.applyProjOrder_schema", "Wf.wPlan_ok", "Wf.applyProjOrder_unsound"]
+            "Wf.schema_topn", "Wf.schema_proj", "Wf.applyProjOrder_schema", "Wf.wPlan_ok", "Wf.applyProjOrderOld_unsound",
+            "Wf.applyProjOrder_regression"]
+# Thm/C17Proj.lean: projection pushdown keeps accepted plans accepted (repaired applier, fix 5c889c5)
+THEOREMS_PROJ = ["Wf.Tm.beq_eq", "Wf.kept_resolves", "Wf.resolve_kept", "Wf.resolveList_kept", "Wf.applyProjOrder_keeps_ok",
+                 "Wf.applyProjOrder_witness"]
 
 # node kinds for which `build_id_subscriber` has an arm, as the model assumes (compared with the
 # source on every run)
@@ -101,6 +105,7 @@ def run(ck):
 
     # ---- Lean
     bad = vlib.step_lean(ck, "RlModel.Thm.C17", THEOREMS, extra_targets=["drv_c17"])
+    bad.update(vlib.step_lean(ck, "RlModel.Thm.C17Proj", THEOREMS_PROJ))
     for name, st in bad.items():
         ck.report("thm:" + name, "theorem %s no longer checks: %s" % (name, st.get("detail", st["status"])), replay={"theorem": name, "status": st}, found_input=False)
 
